@@ -232,7 +232,10 @@ func TestC01_Ops(t *testing.T) { rapid.Check(t, propOps) }
 // wideBytes draws a byte string of the given length for SetWideBytes.
 func wideBytes(t *rapid.T, n int) []byte {
 	b := make([]byte, n)
-	switch rapid.IntRange(0, 5).Draw(t, "wstrat") {
+	switch rapid.IntRange(0, 8).Draw(t, "wstrat") {
+	case 6, 7, 8: // residue + j*p with j up to the largest that fits: every carry of a wide reduction
+		src, _, _ := gen.WideAlias(t, P, n, "walias")
+		return src
 	case 0:
 		copy(b, gen.Bytes(t, n, n, "wrand"))
 	case 1:
@@ -345,7 +348,7 @@ func propCodec(t *rapid.T) {
 			t.Fatal("input bytes were modified")
 		}
 	case "wide":
-		n := rapid.IntRange(32, 64).Draw(t, "wlen")
+		n := gen.WideLen(t, "wlen")
 		src := wideBytes(t, n)
 		orig := append([]byte(nil), src...)
 		v := ref.Int(src)
@@ -583,3 +586,54 @@ func propMachine(t *rapid.T) {
 }
 
 func TestC01_Machine(t *testing.T) { rapid.Check(t, propMachine) }
+
+// propWide is the dedicated high-volume check of the wide reduction: inputs
+// are residue + j*p with the residue next to limb boundaries / field
+// boundaries and j up to the largest multiple that fits, for every length.
+func propWide(t *rapid.T) {
+	n := gen.WideLen(t, "wlen")
+	var src []byte
+	kind := "alias"
+	var r, j *big.Int
+	if rapid.IntRange(0, 2).Draw(t, "plain") == 0 {
+		src, kind = wideBytes(t, n), "pattern"
+	} else {
+		src, r, j = gen.WideAlias(t, P, n, "w")
+	}
+	orig := append([]byte(nil), src...)
+	v := ref.Int(src)
+	want := ref.Mod(v, P)
+	classes := []string{"kind:" + kind, fmt.Sprintf("widelen:%d", n)}
+	top := 0
+	for top < len(src) && src[top] == 0xff {
+		top++
+	}
+	if top >= 2 {
+		classes = append(classes, "top-bytes-all-ones")
+	}
+	if r != nil && j.Sign() > 0 {
+		classes = append(classes, "proper-alias")
+	}
+	lowLimb := new(big.Int).And(want, new(big.Int).SetUint64(^uint64(0)))
+	nearLimb := lowLimb.Cmp(big.NewInt(1<<33)) < 0 || lowLimb.Cmp(new(big.Int).SetUint64(^uint64(0)-(1<<33))) > 0
+	if nearLimb {
+		classes = append(classes, "residue-next-to-a-limb-boundary")
+	}
+	stat.Case("wide", classes, v.Cmp(P) >= 0 && (nearLimb || top >= 2 || (n != 32 && n != 48 && n != 64)), append([]byte{byte(n)}, src...), func() any {
+		return map[string]any{"len": n, "src": hex.EncodeToString(src), "residue": want.Text(16)}
+	})
+	for _, rcv := range []*field.Element{field.NewElement(), lib.Fe(big.NewInt(7))} {
+		if ret := rcv.SetWideBytes(src); ret != rcv {
+			t.Fatal("SetWideBytes: returned pointer is not the receiver")
+		}
+		if got := lib.FeInt(rcv); got.Cmp(want) != 0 {
+			t.Fatalf("SetWideBytes(len %d, %x): got %x want %x", n, src, got, want)
+		}
+		checkInternal(t, rcv)
+	}
+	if !bytes.Equal(src, orig) {
+		t.Fatal("SetWideBytes modified its input")
+	}
+}
+
+func TestC01_Wide(t *testing.T) { rapid.Check(t, propWide) }
